@@ -580,7 +580,7 @@ fn every_parser(acc: &mut Acc, s: &str) {
     p!("Month::from_str", s.parse::<Month>().ok().map(|_| ()));
     p!("DateTime::parse_from_rfc2822", DateTime::parse_from_rfc2822(s).ok());
     p!("DateTime::parse_from_rfc3339", DateTime::parse_from_rfc3339(s).ok());
-    for fmt in ["%Y-%m-%d", "%+", "%c", "%s", "%a %b %e %T %Y %z", "%Y%m%d%H%M%S%.f%#z", "%G-W%V-%u %I %p %Z", "%D %r %:::z", "%v %X%.3f%::z", "%C%y%j %k%M %9f"] {
+    for fmt in ["%Y-%m-%d", "%+", "%c", "%s", "%B", "%A", "%b %a", "%h%Z", "%a %b %e %T %Y %z", "%Y%m%d%H%M%S%.f%#z", "%G-W%V-%u %I %p %Z", "%D %r %:::z", "%v %X%.3f%::z", "%C%y%j %k%M %9f"] {
         p!("NaiveDate::parse_from_str", NaiveDate::parse_from_str(s, fmt).ok());
         p!("NaiveTime::parse_from_str", NaiveTime::parse_from_str(s, fmt).ok());
         p!("NaiveDateTime::parse_from_str", NaiveDateTime::parse_from_str(s, fmt).ok());
@@ -693,7 +693,7 @@ fn strings_upto(alpha: &[char], maxlen: usize, part: usize, nparts: usize, f: &m
 
 const VALID_INPUTS: &[&str] = &[
     "2015-09-05", "23:56:04.012345678", "2015-09-05T23:56:04", "2015-09-05 23:56:04 UTC", "2015-09-05T23:56:04+09:30", "+12345-12-31T23:59:60.5Z", "-0001-01-01 00:00:00 +00:00", "Tue, 1 Jul 2003 10:52:37 +0200",
-    "Fri, 21 Nov 97 09:55:06 -0600 (comment (nested))", "1996-12-19T16:39:57-08:00", "+09:30", "-23:59", "Wednesday", "sep", "September", "Sun Jul  8 00:34:60 2001", "994518299", "-8334601228800", "20010708003459.026+0930", "2001-W27-7 12 AM CET",
+    "Fri, 21 Nov 97 09:55:06 -0600 (comment (nested))", "1996-12-19T16:39:57-08:00", "+09:30", "-23:59", "Wednesday", "sep", "September", "Sun Jul  8 00:34:60 2001", "994518299", "-8334601228800", "20010708003459.026+0930", "2001-W27-7 12 AM CET", "Jan", "Sept", "Thurs", "December", "Wed",
 ];
 const VALID_FORMATS: &[&str] = &["%Y-%m-%dT%H:%M:%S%.f%:z", "%a, %d %b %Y %T %z", "%+", "%c", "%s%.3f", "%-d/%_m/%0y %l:%M %P", "%G-W%V-%u", "%D %r", "%::z%:::z%#z", "%%%t%n%Z"];
 
@@ -768,8 +768,15 @@ fn main() {
                         z.remove(i);
                         every_parser(acc, &z.iter().collect::<String>());
                     }
-                    // every truncation, including inside a multi-byte character boundary is impossible in &str; prefixes:
-                    every_parser(acc, &cs[..i].iter().collect::<String>());
+                    // every prefix, alone and followed by 1..=2 characters of 2, 3 and 4 bytes (byte-length slicing traps)
+                    let pre: String = cs[..i].iter().collect();
+                    every_parser(acc, &pre);
+                    for a in ['é', '€', '\u{1F600}'] {
+                        every_parser(acc, &format!("{}{}", pre, a));
+                        for b in ['é', '€', '\u{1F600}', 'x'] {
+                            every_parser(acc, &format!("{}{}{}", pre, a, b));
+                        }
+                    }
                 }
                 acc.states += 1;
             }
